@@ -138,8 +138,9 @@ def check_ops(acc, m0, tag, bad, ops, perms=(), taut_perms=False):
             bad('explicify(implicify(m)) differs from m on a fully explicit molecule', op='implicify/explicify')
     except Exception as e:
         bad('hydrogen inverse pair raised %s' % type(e).__name__, op='explicify/implicify')
-    # equivariance under renumbering
+    # equivariance under renumbering (the last numbering always has gaps: n -> 2n+5)
     nums = list(m0)
+    perms = list(perms) + [[2 * n + 5 for n in nums]]
     eq_ops = [o for o in EQUIVARIANT if o in results] + (['canonicalize_taut'] if taut_perms and 'canonicalize_taut' in results else [])
     for p in perms:
         mp = dict(zip(nums, p))
@@ -318,9 +319,55 @@ def run_corpus(shard):
     return acc
 
 
+def run_azolium(shard):
+    """charged azoles (the Morgan-rank based charge rules) x substituent scan with a remote stereocentre: idempotence and
+    one canonical form for the two charge spellings"""
+    from chython import smiles
+    k, nsh, tier = shard
+    acc = Acc()
+    subs = ['C', 'CC', 'O', 'N', 'F', 'Cl', 'S', 'c1ccccc1', 'C(N)=O', 'OC', 'C#N', 'CO']
+    rings = [('c1c[nH]c[nH+]1', 'c1c[nH+]c[nH]1'), ('c1cc[nH+][nH]1', 'c1cc[nH][nH+]1'), ('c1cn(C)c[nH+]1', 'c1c[nH]c[n+](C)1'), ('c1cc[nH+]n1C', 'c1cc[nH+]n1C')]
+    i = 0
+    for a in subs:
+        for b in subs:
+            if a == b:
+                continue
+            for link in ('', 'C'):
+                for r1, r2 in rings:
+                    i += 1
+                    if i % nsh != k or (tier == 'quick' and i % 2):
+                        continue
+                    forms = []
+                    for r in (r1, r2):
+                        s_ = '%s[C@H](%s)%s%s' % (a, b, link, r)
+                        tag = s_
+                        bad = mkbad(acc, tag)
+                        acc.states += 1
+                        acc.transitions += 3
+                        try:
+                            m = smiles(s_)
+                            m.canonicalize()
+                            first = snap(m)
+                            m.canonicalize()
+                            if snap(m) != first:
+                                bad('canonicalize is not idempotent', first=str(m))
+                            m.canonicalize()
+                            if snap(m) != first:
+                                bad('canonicalize oscillates', first=str(m))
+                            forms.append(str(m))
+                        except Exception as e:
+                            bad('canonicalize raised %s' % type(e).__name__)
+                    if len(forms) == 2 and r1 != r2 and forms[0] != forms[1] and '(C)' not in r1:
+                        mkbad(acc, '%s[C@H](%s)%s%s' % (a, b, link, r1))('two charge spellings of one azolium cation reach different canonical forms', got=forms)
+                    acc.outcomes['azolium'] += 1
+    acc.sample({'azolium scan': 'a[C@H](b)-link-ring, 12x11 substituent pairs x 2 linkers x 4 rings x 2 charge spellings'})
+    return acc
+
+
 def plan(tier, seed):
     return [Stage('small scope x operations x numberings', run_small, [(k, 64, tier) for k in range(64)], 'valence-valid D(<=%d,2) over N,O,S,P,B,Cl with charges/radicals x 11 operations x ALL/GEN numberings' % (4 if tier == 'quick' else 5)),
             Stage('every rule pattern instantiated', run_rules, [(k, 32, tier) for k in range(32)], '125 patterns of the standardisation/charge tables instantiated as molecules (element, bond-order and padding variants)'),
+            Stage('charged azoles x substituent scan', run_azolium, [(k, 16, tier) for k in range(16)], 'imidazolium / pyrazolium (4 ring spellings) x 12x11 substituent pairs on a remote stereocentre x 2 linkers: idempotence, one form per cation'),
             Stage('documented functional-group pairs', run_documented, [0], 'the (input, canonical) pairs of standardize/test/test_groups.py'),
             Stage('corpus, organometallics, special cases', run_corpus, [(k, 64, tier) for k in range(64)], 'corpus stride %d (tautomer fixing enabled for equivariance), organometallic combinator, zwitterions / gem-dinitro / sulfur cations / tautomerisable rings; tautomer enumeration' % (16 if tier == 'quick' else 2))]
 
@@ -329,6 +376,10 @@ def replay(rec):
     from chython import smiles
     tag = rec['mol']
     acc = Acc()
+    if '[C@H](' in tag and ('[nH+]' in tag or '[n+]' in tag) and 'azolium' in rec.get('key', '') + 'azolium' and ('idempotent' in rec['key'] or 'oscillates' in rec['key'] or 'charge spellings' in rec['key']):
+        for k in range(16):
+            acc.merge(run_azolium((k, 16, 'thorough')))
+        return [f for f in acc.fails if f['key'] == rec['key']]
     if ' -> ' in tag and not tag.startswith('n'):
         a = run_documented(0)
         return [f for f in a.fails if f['key'] == rec['key']]
